@@ -875,6 +875,8 @@ def del_item(ip, obj, idx):
 
 
 def contains(ip, container, x):
+    if isinstance(container, (str, bytes)) and isinstance(x, type(container)):
+        return x in container  # two constants
     if isinstance(container, tuple):
         cs = [ip.equal(x, y) for y in container]
         if any(c is True for c in cs):
